@@ -213,8 +213,9 @@ func (s *Session) Exec(task, idx int, op Op) (r OpResult) {
 
 // Registry hands out small integers for object identities (pointer identity of *fx.Node).
 type Registry struct {
-	ids  map[*fx.Node]int
-	keep []*fx.Node
+	ids        map[*fx.Node]int
+	keep       []*fx.Node
+	containers []Container // the containers of the run, by session index
 }
 
 func NewRegistry() *Registry { return &Registry{ids: map[*fx.Node]int{}} }
@@ -265,7 +266,12 @@ func (g *Registry) Describe(v any, depth int) *Desc {
 		return &Desc{Kind: "other", V: fmt.Sprintf("%T", x)}
 	}
 	if c, ok := v.(Container); ok && c != nil {
-		return &Desc{Kind: "other", V: "container"}
+		for i, k := range g.containers {
+			if k == c {
+				return &Desc{Kind: "container", ID: i + 1}
+			}
+		}
+		return &Desc{Kind: "container", ID: -1}
 	}
 	t := fmt.Sprintf("%T", v)
 	if strings.Contains(t, "ontainer") {
